@@ -43,6 +43,9 @@ CHECKS = [
      "property-based testing: rapid-driven cluster simulation, proposal ledger as oracle over every log", "DESIGN.md 5/C20"),
 ]
 
+CHECKS.append(sim("C15", "Bounded liveness from sampled reachable states: a chaotic generated prefix, then a fault-free suffix (members of the committed config running, removed nodes stopped, all messages delivered, snapshot outcomes reported, round-robin ticks) after which one leader, equal logs/commit/applied, empty unstable, no auto-leave joint config, no pending transfer, all progress in StateReplicate and every proposal accepted by the leader in the second half committed and applied everywhere are required. Not a liveness proof.",
+     "property-based testing: rapid-generated fault prefix + deterministic fault-free suffix, convergence oracle (bounded liveness)", "DESIGN.md 5/C15"))
+
 PURE_NOTE = ("Trusted base: the reference models in harness/refmodel (a few lines each, written from the property text). The exhaustive part covers the stated "
              "small domain completely; beyond it inputs are sampled.")
 CHECKS += [
@@ -55,7 +58,6 @@ CHECKS += [
 ]
 
 NOT_YET = {
- "C15": "check under construction in this session (SIM liveness suffix); will be claimed when committed",
  "C18": "check under construction in this session (LOG engine); will be claimed when committed",
  "C19": "check under construction in this session (REPLAY engine); will be claimed when committed",
 }
